@@ -1,5 +1,6 @@
 import TenpyModel.C12.P2_T2O
 import TenpyModel.C12.P2_Fill2
+import TenpyModel.C12.P2_C2JW5
 /-!
 # C12 — property theorems, second part
 
@@ -304,30 +305,46 @@ example :
   refine ⟨(C12_op_charge_all_fillings (1/3)).1 .full, ((C12_hc_pairs_all_fillings (1/3)).2 .full .parity).1,
     by decide +kernel, by decide +kernel⟩
 
-/-! ## `_set_common_charges_charge_to_JW_parity` (partial) -/
+/-! ## `_set_common_charges_charge_to_JW_parity` -/
 
-/-
-Full statement NOT proved (checked against the code on every run by the correspondence harness):
+/-- **The new `charge_to_JW_parity` reproduces the Jordan–Wigner sign of every basis state of every
+site.**  Whenever `_set_common_charges_charge_to_JW_parity` returns a vector `r` (exact match or greedy
+cover — all branches), for every site `s` and every old charge vector `old` of a basis state of that
+site: `r · new_charges(state) ≡ charge_to_JW_parity_s · old (mod 2)`, i.e. `charge_to_JW_signs` of the
+site with the common charges equals that of the original site.  Hypotheses: the old parity vectors have
+entries 0/1, a new charge does not list an old charge twice, `new_mod` has one entry per new charge.
+Proof: the selected new charges have `mod` 1 or even (reduction does not change the parity) and their
+term lists are pairwise disjoint subsets that exactly cover the parity-carrying old charges
+(`cover_fold`: invariant of the greedy loop; `need_sum`). -/
+theorem C12_common_c2jw (c2jw : List (Option (List Int))) (newCharges : List (List CTerm)) (newMod : List Nat)
+    (ps : List (List Int)) (r : List Int) (hps : c2jw.mapM id = some ps)
+    (h : commonC2JW c2jw newCharges newMod = some r)
+    (hlen : newMod.length = newCharges.length)
+    (h01 : ∀ par ∈ ps, ∀ p ∈ par, p = 0 ∨ p = 1)
+    (hndc : ∀ nc ∈ newCharges, nc.Nodup) (s : Nat) (old : List Int) :
+    r.length = newCharges.length ∧
+    dotI r (commonCharge newCharges newMod s old) % 2 = dotI (ps.getD s []) old % 2 :=
+  commonC2JW_spec c2jw newCharges newMod ps r hps h hlen h01 hndc s old
 
-  theorem C12_common_c2jw (c2jw newCharges newMod r) (h : commonC2JW c2jw newCharges newMod = some r)
-      (hpar : every old `charge_to_JW_parity` entry is 0 or 1) (hnd : the term lists have no duplicates) :
-      ∀ site s, ∀ old charge vector `old`,
-        (Σ_ni r[ni] * (commonCharge newCharges newMod s old)[ni]) % 2 = (Σ_oi par_s[oi] * old[oi]) % 2
-  (the new `charge_to_JW_parity` reproduces the Jordan–Wigner sign of every basis state of every site),
-  and `= none` iff no exact cover of the parity-carrying old charges by admissible new charges exists
-  in the greedy order.
+/-- non-vacuity: fermion ⊗ spinful-fermion-like site with charges `[N]` and `[N, 2Sz]`; new charges
+`N_total` (mod 1) and `2Sz` (mod 1): the parity vector is `[1, 0]`; a state with old charges `(1)` on
+site 0 / `(1, -1)` on site 1 has odd parity in both descriptions; with independent charges the greedy
+cover picks the two `N` charges. -/
+example :
+    commonC2JW [some [1], some [1, 0]] [[(1, 0, 0), (1, 1, 0)], [(1, 1, 1)]] [1, 1] = some [1, 0] ∧
+    commonCharge [[(1, 0, 0), (1, 1, 0)], [(1, 1, 1)]] [1, 1] 1 [1, -1] = [1, -1] ∧
+    commonCharge [[(1, 0, 0), (1, 1, 0)], [(1, 1, 1)]] [1, 1] 0 [1] = [1, 0] ∧
+    dotI [1, 0] [1, 0] % 2 = dotI [1] [1] % 2 ∧
+    commonC2JW [some [1], some [1, 0]] [[(1, 0, 0)], [(1, 1, 0)], [(1, 1, 1)]] [2, 1, 1] = some [1, 1, 0] := by
+  decide
 
-Missing: the invariant of the greedy `subs.foldl` (chosen charges are pairwise disjoint subsets of
-`need`, `acc.2` is what is still uncovered) and the arithmetic of `commonCharge` modulo an even `mod`.
-What is proved are the three branches that do not enter the greedy loop:
--/
-
-/-- **`_set_common_charges_charge_to_JW_parity`, the branches without the greedy cover**:
+/-- **`_set_common_charges_charge_to_JW_parity`, which vector is returned in the branches without the
+greedy cover**:
 (1) a site without `charge_to_JW_parity` makes the result undefined; (2) if no old charge carries
 parity the new vector is zero; (3) otherwise, if some admissible new charge (`mod` 1 or even)
 consists of exactly the parity-carrying old charges, the result is the unit vector at the FIRST such
 charge — whatever proper subsets precede it. -/
-theorem C12_common_c2jw_partial (c2jw : List (Option (List Int))) (newCharges : List (List CTerm)) (newMod : List Nat) :
+theorem C12_common_c2jw_branches (c2jw : List (Option (List Int))) (newCharges : List (List CTerm)) (newMod : List Nat) :
     (c2jw.mapM id = none → commonC2JW c2jw newCharges newMod = none) ∧
     (∀ ps, c2jw.mapM id = some ps →
       let need : List CTerm := ps.zipIdx.flatMap (fun (par, s) =>
